@@ -271,7 +271,9 @@ func decryptSM2EC(c *sm2Curve, priv *PrivateKey, ciphertext []byte, opts *Decryp
 	C2Bytes := C2.Bytes()[1:]
 	msgLen := len(c2)
 	msg := sm3.Kdf(C2Bytes, msgLen)
-	if _subtle.ConstantTimeAllZero(c2) == 1 {
+	// B4: it is the KDF output t (held in msg here) that must not be all zero;
+	// an all-zero C2 is a legitimate ciphertext (M = t).
+	if _subtle.ConstantTimeAllZero(msg) == 1 {
 		return nil, ErrDecryption
 	}
 
